@@ -1391,6 +1391,11 @@ func (e *Exec) builtin(name string, args []Value) Value {
 			}
 		}
 		return nil
+	case "ssa:wrapnilchk":
+		if p, ok := args[0].(PtrV); ok && p.Obj == nil {
+			panic(goPanic{msg: "value method called using nil pointer"})
+		}
+		return args[0]
 	case "recover":
 		th := e.curThread()
 		// recover() is effective in a function called directly by the deferring frame's runDefers
